@@ -54,6 +54,9 @@ type sim struct {
 	ncd      *ncdisruption.Controller
 	podev    *podevents.Controller
 
+	infDS  *informer.DaemonSetController
+	dsRefs map[string]metav1.OwnerReference
+
 	pools   map[string]*v1.NodePool
 	types   map[string]*cloudprovider.InstanceType
 	nodeBy  map[string]*NodeSpec
@@ -283,6 +286,9 @@ func (s *sim) mkPod(p *PodSpec) *corev1.Pod {
 			Effect: corev1.TaintEffect(t.Effect)})
 	}
 	pod := world.Pod(o)
+	if ref, ok := s.dsRefs[p.DS]; ok && p.DS != "" {
+		pod.OwnerReferences = []metav1.OwnerReference{ref}
+	}
 	if len(p.Sel) > 0 {
 		pod.Spec.NodeSelector = map[string]string{}
 		for k, v := range p.Sel {
@@ -353,6 +359,7 @@ func (s *sim) restart() {
 	s.infClaim = informer.NewNodeClaimController(w.Client, w.Prov, s.cluster, s.cost)
 	s.infPod = informer.NewPodController(w.Client, s.cluster)
 	s.infPool = informer.NewNodePoolController(w.Client, w.Prov, s.cluster, s.cost)
+	s.infDS = informer.NewDaemonSetController(w.Client, s.cluster)
 	s.ncd = ncdisruption.NewController(w.Clock, w.Client, w.Prov)
 	s.podev = podevents.NewController(w.Clock, w.Client, w.Prov)
 }
@@ -397,6 +404,7 @@ func (s *sim) hydrate() {
 	for i := range pods.Items {
 		s.deliver("Pod", pods.Items[i].Name, pods.Items[i].Namespace)
 	}
+	s.deliverDaemonSets()
 }
 
 // runNcDisruption runs the real nodeclaim-disruption controller (Drifted / Consolidatable) for a claim.
@@ -480,6 +488,7 @@ func (s *sim) build() error {
 			timeline = append(timeline, timed{n.DriftedAt, func() { s.runNcDisruption(claimName(nn)) }})
 		}
 	}
+	s.createDaemonSets()
 	for i := range sc.Pods {
 		w.EnvCreate(s.mkPod(&sc.Pods[i]))
 	}
